@@ -87,13 +87,16 @@ func attesterSlot(v, epoch, ver int) int {
 }
 
 func proposerSlot(v, epoch, ver int) (int, bool) {
-	if (v+epoch+ver)%3 == 2 {
+	// every third version of the assignment has no proposal for any of the validators (a successful
+	// but empty answer must replace what was stored before)
+	if ver%3 == 1 || (v+epoch+ver)%3 == 2 {
 		return 0, false
 	}
 	return epoch*slotsPerEpoch + (5*v+epoch+3*ver)%slotsPerEpoch, true
 }
 
-func inSyncCommittee(v, period, ver int) bool { return (v+period+ver)%3 != 1 }
+// (version 2, 5, ...: nobody is in the sync committee)
+func inSyncCommittee(v, period, ver int) bool { return ver%3 != 2 && (v+period+ver)%3 != 1 }
 
 func pubKey(v int) (pk phase0.BLSPubKey) {
 	pk[0] = byte(v)
